@@ -279,6 +279,20 @@ func setHandler(args []string) (string, []string) {
 		}
 		// after every step every register must hold exactly the reference members (operands unchanged,
 		// results are new sets) and size, listing and membership must agree with each other
+		// (long histories over large sets: the complete comparison every 64th step and at the end; in between the
+		// sizes — a lost or a phantom member changes a size)
+		if len(ops) > 400 && k%64 != 0 && k < len(ops)-12 {
+			for r := 0; r < 3; r++ {
+				if regs[r].Cardinality() != len(ref[r]) {
+					fail(k, op, "afterwards set %d has size %d, a mathematical set has %d members", r, regs[r].Cardinality(), len(ref[r]))
+					ref[r] = refSet{}
+					for _, tk := range setToks(regs[r]) {
+						ref[r][tk] = true
+					}
+				}
+			}
+			continue
+		}
 		for r := 0; r < 3; r++ {
 			intListAgrees(regs[r], func(format string, a ...any) { fail(k, op, format, a...) })
 			if got := showTokSet(setToks(regs[r])); got != ref[r].show() || regs[r].Cardinality() != len(ref[r]) {
